@@ -87,7 +87,35 @@ def setup(ctx):
     sys.addaudithook(hook)
 
 
+def at_scale_case(ctx, g, rng):
+    """tables far above any plausible chunk size; a failing cell, if any, near the end"""
+    api, S, pd = ctx.api, probe.S, ctx.pd
+    d = rng.choice([":", "/"])
+    recs = gen.large_records(rng, 40, d)
+    n = rng.choice([1500, 12000]) if ctx.tier == "thorough" else 1100
+    allu = [u for r in recs for u in spec.all_u(r)]
+    allp = [p for r in recs for p in spec.all_p(r)]
+    fail_at = rng.choice([None, None, n - 2, n // 2 + 1])
+    for meth, pool in (("compress", allu), ("expand", [p + d for p in allp])):
+        cells = [rng.choice(pool) + str(i % 97) for i in range(n)]
+        if fail_at is not None:
+            cells[fail_at] = "zz" + d + "unknown" if meth == "expand" else "http://nope/1"
+        rows = [[str(i), c, "o\tx" if i % 50 == 0 else "o"] for i, c in enumerate(cells)]
+        with probe.monitor_mode():
+            conv = api.Converter([gen.mk_record(api, r) for r in recs], delimiter=d)
+        strict = fail_at is not None and rng.random() < 0.5
+        df = pd.DataFrame({"i": [r[0] for r in rows], "x": [r[1] for r in rows], "o": [r[2] for r in rows]})
+        call(getattr(conv, "pd_" + meth), df, "x", target_column=rng.choice([None, "y"]), strict=strict, passthrough=rng.random() < 0.3)
+        path = ctx.tmp / "c16.tsv"
+        write_table(path, ["i", "x", "o"], rows, None, "\n")
+        call(getattr(conv, "file_" + meth), path, 1, strict=strict, passthrough=rng.random() < 0.3)
+    S.counters[f"wl:at-scale:n{n}"] += 1
+    probe.note_key(f"at-scale:n{n}:fail{fail_at is not None}", True)
+
+
 def run_case(ctx, g, rng):
+    if g % 60 == 60 - 1:
+        return at_scale_case(ctx, g, rng)
     api, S, pd = ctx.api, probe.S, ctx.pd
     d = rng.choice([":", ":", ":", "/", "_"])
     recs = gen.records(rng, d, 1, 3)
